@@ -469,6 +469,35 @@ safe Version [C03]
 @*/
 
 /*@
+module config
+props C20
+use common core
+dialect neovm
+
+// C20: the network configuration map. setConfig(key, val) stores exactly config<key> := val (Alphabet only), config(key)
+// reads exactly that key (an exact match: keys that are prefixes of one another do not interfere), listConfig returns
+// every record under the prefix "config" in key order with the prefix removed. No other key of the contract starts
+// with "config" (the other key literals are candidate, snapshot..., 2, p, e).
+func Config(key) (r)
+  pure
+  ensures [C20] r == store.opt("config" ++ key)
+
+func SetConfig(id, key, val)
+  ensures [C20] W(alphabet())
+  ensures [C20] store.has("config" ++ key) && store.get("config" ++ key) == val
+  ensures [C20] forall k Bytes {store.opt(k)} :: k != "config" ++ key ==> store.opt(k) == old(store).opt(k)
+  ensures [C20] notifs == old(notifs)
+
+func ListConfig() (r)
+  pure
+  ensures [C20] len(r) == cnt(store, "config")
+  ensures [C20] forall j Int {r[j]} :: 0 <= j && j < len(r) ==> r[j] == ConfigRecord{skey(store, "config", j)[6:], store.get(skey(store, "config", j))}
+  loop 0
+    invariant len(config) == $it.pos
+    invariant forall j Int {config[j]} :: 0 <= j && j < $it.pos ==> config[j] == ConfigRecord{$it.key(j)[6:], store.get($it.key(j))}
+@*/
+
+/*@
 module upgrade
 props C16
 use common core
